@@ -119,6 +119,20 @@ def family(ctx, tables, per_group, n_pres, max_atoms=120, groups=None):
                     d["origin_moved_by_tabulated_normalizer"] = True
                 cases.append({"id": cid, "sg": sg, "base": base, "crystal": pr, "pres": d})
                 cid += 1
+            if base % 3 == 0:
+                # the crystal once more with every atom displaced by at most 2e-5 A per cartesian component, analysed at a
+                # tolerance of 1e-2 A: still the same crystal at that tolerance (group stable over the window 1e-3 .. 1e-1)
+                cell = np.array(cr["cell"], dtype=float)
+                cart = np.array(cr["scaled_positions"], dtype=float) @ cell
+                cart = cart + np.array([[rng.uniform(-2e-5, 2e-5) for _ in range(3)] for _ in range(len(cart))])
+                rt = dict(cr)
+                rt["scaled_positions"] = (cart @ np.linalg.inv(cell)).tolist()
+                if K.stable_group(rt, lo=1e-3, hi=1e-1) == sg:
+                    cases.append({"id": cid, "sg": sg, "base": base, "crystal": rt, "tol": 1e-2,
+                                  "pres": {"kind": "rattled", "noise_A": 2e-5, "symmetry_tol": 1e-2}})
+                    cid += 1
+                else:
+                    disc += 1
     return cases, disc
 
 
@@ -181,7 +195,7 @@ def run_impl(cases, jobs=8, reuse=False):
     chunks = [c for c in chunks if c]
     payloads = []
     for ch in chunks:
-        pl = {"cases": [{"id": c["id"], "crystal": c["crystal"]} for c in ch]}
+        pl = {"cases": [dict({"id": c["id"], "crystal": c["crystal"]}, **({"tol": c["tol"]} if "tol" in c else {})) for c in ch]}
         if reuse:
             pl["reuse"] = [{"id": c["id"], "crystal": c["crystal"]} for c in ch[:12]]
         payloads.append(pl)
@@ -317,6 +331,17 @@ def c05_predicate(r):
     proper, improper = proper_congruent(r["std_lattice"], r["std_positions"], r["std_types"], r["conv_scaled"], r["conv_numbers"])
     if not proper:
         bad.append("no proper rigid motion maps the standardized atoms onto the returned atoms" + (" (only an improper one: mirror image)" if improper else ""))
+    # the same against an independent symmetry search on the input as given (not the analyzer's own dataset)
+    if "ind_number" in r:
+        if r["ind_number"] != r["number"]:
+            bad.append("an independent symmetry search on the INPUT gives space group %s, the analyzer reports %s" % (r["ind_number"], r["number"]))
+        elif np.allclose(np.array(r["ind_std_lattice"]), np.array(r["conv_cell"]), rtol=0, atol=1e-6 * max(1.0, np.abs(np.array(r["conv_cell"])).max())):
+            p2, i2 = proper_congruent(r["ind_std_lattice"], r["ind_std_positions"], r["ind_std_types"], r["conv_scaled"], r["conv_numbers"])
+            if not p2:
+                bad.append("no proper rigid motion maps the idealized standardized atoms of the INPUT (independent symmetry search) onto the returned atoms"
+                           + (" (only an improper one: mirror image)" if i2 else ""))
+        else:
+            bad.append("conventional cell differs from the standardized lattice of an independent symmetry search on the input")
     return bad
 
 
